@@ -36,6 +36,7 @@ type wcall struct {
 type wdouble struct {
 	calls  []wcall
 	failAt int
+	full   bool // the failing call consumes all its bytes and reports the error together with the full count (write, then sync fails)
 	buf    bytes.Buffer
 }
 
@@ -43,6 +44,10 @@ func (w *wdouble) Write(p []byte) (int, error) {
 	k := len(w.calls) + 1
 	if k == w.failAt {
 		w.calls = append(w.calls, wcall{len(p), true})
+		if w.full {
+			w.buf.Write(p)
+			return len(p), errInjected
+		}
 		return 0, errInjected
 	}
 	w.calls = append(w.calls, wcall{len(p), false})
@@ -314,6 +319,10 @@ func runOutputCase(tw *TraceWriter, id int, p OutParams, variant int, scratch st
 		if variant%2 == 1 {
 			near = bytes.TrimRight(append([]byte{}, expected...), "\n")
 		}
+		if variant%4 == 3 {
+			// ... or differs only in its line ends (a checkout with CRLF): Save still has to write exactly the output
+			near = bytes.ReplaceAll(append([]byte{}, expected...), []byte("\n"), []byte("\r\n"))
+		}
 		os.WriteFile(target, near, 0644)
 		before = fsState(target, nil)
 	case "isdir":
@@ -328,7 +337,7 @@ func runOutputCase(tw *TraceWriter, id int, p OutParams, variant int, scratch st
 	}
 	staged = isFile && variant%2 == 1 // (the twin and the oracle above were built in one go)
 	obj := build(p.NoFormat)
-	w := &wdouble{failAt: p.FailAt}
+	w := &wdouble{failAt: p.FailAt, full: variant%4 == 1}
 	status, sameErr := invoke(obj, w, target)
 	after := "absent"
 	if p.Entry == "File.Save" {
